@@ -72,9 +72,23 @@ def run(cx):
                 for s in k.stmts() if not k.blocks[s.bb].cleanup)
             if upvars and stores_none:
                 reset_in_map_err = True
+    map_err_blocks = []
+    if reset_in_map_err:
+        map_err_blocks = [t.bb for t in c.calls() if term_calls(t, r"result::Result::<T, E>::map_err$") and op_place(t.args[0]) is not None
+                          and op_place(t.args[0]).local == ap[0].dst.local]
     if before:
-        p = path_without(c, err_t, c.return_blocks(), on_err)
-        ok = p is None or reset_in_map_err
+        # from the moment the new state is committed, every way out of compile() that is not the success
+        # continuation of the applier must pass a reset of the state (any early return in between included)
+        ok = True
+        p = None
+        for b0, k0 in before:
+            nxt = c.blocks[b0].term.j.get("t")
+            if nxt is None:
+                continue
+            p = path_without(c, nxt, c.return_blocks(), on_err + map_err_blocks + [ok_t])
+            if p is not None and not (map_err_blocks == [] and reset_in_map_err):
+                ok = False
+                break
     else:
         ok = all(c.dominates(ok_t, b) for b, k in writers)
     cx.ob("R19.commit-after-apply", c.id + "|state-not-committed-before-apply", ok,
